@@ -481,7 +481,7 @@ class SetM(Model):
 
 def sort_seq(ip, seq, lt_fn):
     """sorting network (bubble) over the slots; invalid slots sort last.
-    lt_fn(a, b) -> z3 Bool (strict)"""
+    lt_fn(a, b) -> z3 Bool (strict); generator (the comparison may run MIR)"""
     e = list(seq.elems)
     n = len(e)
     valid = [seq.n > k for k in range(n)]
@@ -489,7 +489,8 @@ def sort_seq(ip, seq, lt_fn):
         for j in range(n - 1 - i):
             a, b = e[j], e[j + 1]
             va, vb = valid[j], valid[j + 1]
-            swap = z3.Or(z3.And(vb, z3.Not(va)), z3.And(va, vb, lt_fn(b, a)))
+            ltba = yield from lt_fn(b, a)
+            swap = z3.Or(z3.And(vb, z3.Not(va)), z3.And(va, vb, ltba))
             e[j], e[j + 1] = ite_val(swap, b, a), ite_val(swap, a, b)
             valid[j], valid[j + 1] = z3.If(swap, vb, va), z3.If(swap, va, vb)
     return Seq(e, seq.n, seq.kind)
@@ -846,8 +847,9 @@ def install(ctx):
         if isinstance(s, Ref):
             loc = s.loc
             s = read_loc(loc)
-        cmpfn = ip.ctx.ord_lt_for(ip, s)
-        write_loc(loc, sort_seq(ip, s, cmpfn))
+        cmpfn = ip.ctx.ord_lt_for(ip, s, pc)
+        srt = yield from sort_seq(ip, s, cmpfn)
+        write_loc(loc, srt)
         return UNIT
 
     @M.reg('[T]::first', 'Vec::first')
@@ -1041,12 +1043,43 @@ def install(ctx):
 
     # default ordering used by sort_unstable: run the crate's Ord impl when the
     # element type has a hand-written one, else structural
-    def ord_lt_for(ip, seq):
+    def ord_lt_for(ip, seq, pc):
+        import re as _re
+        from interp import last_type_name
+        m = _re.search(r'impl \[(.*)\]>', pc['raw'])
+        ety = m.group(1).strip() if m else ''
+        while True:
+            mm = _re.match(r'^(?:std::sync::)?(?:Arc|Box|Rc)<(.*)>$', ety) or _re.match(r'^&(?:mut )?(.*)$', ety)
+            if not mm:
+                break
+            ety = mm.group(1).strip()
+        tname = last_type_name(ety) if ety else ''
+        crate_cmp = ip.index.methods.get((tname, 'Ord', 'cmp'))
+        use_mir = bool(crate_cmp) and not crate_cmp[0].impl_info[2]
+
         def lt(a, b):
+            if use_mir:
+                x, y = a, b
+                # peel Arc / references down to the element type's own value location
+                def to_ref(v):
+                    for _ in range(4):
+                        if isinstance(v, Ref):
+                            inner = read_loc(v.loc)
+                            if hasattr(inner, 'deref_loc') or isinstance(inner, Ref):
+                                v = inner
+                                continue
+                            return v
+                        if hasattr(v, 'deref_loc'):
+                            v = Ref(v.deref_loc(ip))
+                            continue
+                        return Ref(Loc(Cell(v, 'sort-elem')))
+                    return v
+                o = yield from ip.call_fn(crate_cmp[0], [to_ref(x), to_ref(y)])
+                d = o.discr if not isinstance(o.discr, int) else z3.IntVal(o.discr)
+                return d == -1
             x, y = deref_all(a), deref_all(b)
-            if hasattr(x, 'ord_key'):
-                return x.ord_key(ip) < y.ord_key(ip)
             l, _ = lex_cmp(x, y)
             return l
+            yield
         return lt
     ctx.ord_lt_for = ord_lt_for
